@@ -152,7 +152,7 @@ module.exports = {
   rule: 'random configurations (operator subsets x random subsets of a 22-name method pool incl. call/apply/prototype/default/class/plusOperator-as-method, dst omitted/renamed/shared/null, allowedWithoutCallee, stray operator flags, duplicates, every option present/omitted, unknown fields, undeserialisable configs) against programs that mention every pool method in several receiver shapes next to + / += / templates / bare calls / prototype calls. Monitors: hook names emitted subset of configured dst (census), hook only on enabled operations with the configured name and on every enabled required operation (alignment + policy), monotonicity between a configuration and its sub-configuration, defaults observed in the response, prologue semantics executed under V8 in realms with no / pre-installed _ddiast. distinct_nontrivial = distinct (configuration, program) pairs with a decided result.',
   assumptions: ['replacement names and prefixes are identifier-valid strings (incl. keywords, non-ASCII, $); other strings cannot be spelled as usable names in the API contract', 'duplicate sources: first entry wins (as a list lookup does); this is what the model assumes'],
   plan (ctx) {
-    const n = ctx.tier === 'thorough' ? 5000 : 360
+    const n = ctx.tier === 'thorough' ? 12000 : 1500
     const per = 60
     const shards = []
     for (let k = 0; k < Math.ceil(n / per); k++) shards.push({ kind: 'cfg', count: per, stream: k })
